@@ -237,72 +237,7 @@ def run(rep: Report, prog: Program, tier: str) -> None:
             rep.ok("R4.3")
         else:
             rep.fail("R4.3", "raise_scheduled|fields", f"raise_scheduled builds RetryExhaustedError({[(k, show(v)) for k, v in (d or {}).items()]}); expected every field from the like-named field of the action", where=rs.where(), function=rs.qual)
-    da = prog.func(f"{LOGIC}:determine_action_from_outcome")
-    rep.analysed(da.qual)
-    OUT = ("param", "outcome")
-    n_sched = 0
-    for p in engine(prog).paths(da):
-        if p.exit[0] != "return":
-            continue
-        d = ctor_args(p.exit[1], "ScheduledAction", ["stop_reason", "attempts", "last_class", "last_exception", "last_result", "next_sleep_s"])
-        if d is None:
-            continue
-        n_sched += 1
-        # decided by value: the fields of the action are evaluated for every combination of the decision, the
-        # for_result flag and the presence of the two stop reasons that is consistent with the path, and compared with
-        # what the exception of call() must carry (whatever conditional expressions / helpers spell it)
-        DEC = attr(OUT, "decision")
-        SCHED = ("enum", "AttemptDecision", "SCHEDULED")
-        problems = []
-        combos = 0
-        for dec in ("SCHEDULED", "RAISE"):
-            for fr in (True, False):
-                for osr in (None, "osr"):
-                    for ssr in (None, "ssr"):
-                        def leaf(t, dec=dec, fr=fr, osr=osr, ssr=ssr):
-                            if t == DEC:
-                                return ("enum", "AttemptDecision", dec)
-                            if t == ("param", "for_result"):
-                                return fr
-                            if t == attr(OUT, "stop_reason"):
-                                return osr
-                            if t == attr(ST, "last_stop_reason"):
-                                return ssr
-                            if t[0] in ("param", "attr", "enum"):
-                                return t
-                            raise CannotEval(show(t))
-
-                        try:
-                            if not all(truth(a, leaf) == pol for a, pol, _ in p.conds):
-                                continue  # this combination does not take this path
-                            got = {k: evaluate(v, leaf) for k, v in d.items()}
-                        except CannotEval as exc:
-                            problems.append(f"cannot evaluate {exc}")
-                            break
-                        if dec == "RAISE" and not fr:
-                            continue  # an exception-caused raise re-raises the exception itself: no action is built (R4.1)
-                        combos += 1
-                        want = {
-                            "stop_reason": osr or ssr or ("enum", "StopReason", "SCHEDULED" if dec == "SCHEDULED" else "MAX_ATTEMPTS_GLOBAL"),
-                            "attempts": ("param", "attempt"),
-                            "last_class": attr(ST, "last_class"),
-                            "last_exception": None if fr else attr(ST, "last_exc"),
-                            "last_result": attr(ST, "last_result") if fr else None,
-                            "next_sleep_s": attr(OUT, "sleep_s") if dec == "SCHEDULED" else None,
-                        }
-                        for k, w in want.items():
-                            if got.get(k) != w:
-                                problems.append(f"[decision={dec}, for_result={fr}, outcome.stop_reason={'set' if osr else 'None'}, state.last_stop_reason={'set' if ssr else 'None'}] {k}={show(got.get(k)) if isinstance(got.get(k), tuple) else got.get(k)}; expected {show(w) if isinstance(w, tuple) else w}")
-        scheduled = any(a == ("cmp", "is", DEC, SCHED) and pol for a, pol, _ in p.conds)
-        rep.instance("R4.3", f"ScheduledAction|{'|'.join(p.describe()[-3:])[:120]}")
-        if not problems and combos == 0:
-            problems.append("no combination of decision / for_result reaches this construction")
-        if problems:
-            rep.fail("R4.3", f"ScheduledAction|scheduled={scheduled}|{problems[0][:40]}", f"determine_action_from_outcome: ScheduledAction built with {problems[:3]}", where=da.where(), function=da.qual, path=p.describe())
-        else:
-            rep.ok("R4.3")
-    if n_sched < 2:
-        raise AnalysisError("determine_action_from_outcome: ScheduledAction sites not found")
+    scheduled_action_fields(rep, "R4.3", prog)
     # the flag that selects last_result / last_exception is true exactly after a result-caused failure
     n_sites = 0
     for name in ("sync_call", "async_call"):
@@ -375,6 +310,82 @@ def run(rep: Report, prog: Program, tier: str) -> None:
 
     result_verdict(rep, "R4.6", prog)
     rep.floor("R4.6", 4)
+
+
+def scheduled_action_fields(rep: Report, rid: str, prog: Program, only: tuple[str, ...] | None = None) -> None:
+    """the terminal action built by determine_action_from_outcome, field by field and by value, for every decision /
+    flag / stop-reason combination that reaches each construction (`only`: restrict the comparison to these fields)"""
+    da = prog.func(f"{LOGIC}:determine_action_from_outcome")
+    rep.analysed(da.qual)
+    OUT = ("param", "outcome")
+    n_sched = 0
+    for p in engine(prog).paths(da):
+        if p.exit[0] != "return":
+            continue
+        d = ctor_args(p.exit[1], "ScheduledAction", ["stop_reason", "attempts", "last_class", "last_exception", "last_result", "next_sleep_s"])
+        if d is None:
+            continue
+        n_sched += 1
+        # decided by value: the fields of the action are evaluated for every combination of the decision, the
+        # for_result flag and the presence of the two stop reasons that is consistent with the path, and compared with
+        # what the exception of call() must carry (whatever conditional expressions / helpers spell it)
+        DEC = attr(OUT, "decision")
+        SCHED = ("enum", "AttemptDecision", "SCHEDULED")
+        problems = []
+        combos = 0
+        for dec in ("SCHEDULED", "RAISE", "RETRY", "ABORTED"):
+            for fr in (True, False):
+                for osr in (None, "osr"):
+                    for ssr in (None, "ssr"):
+                        def leaf(t, dec=dec, fr=fr, osr=osr, ssr=ssr):
+                            if t == DEC:
+                                return ("enum", "AttemptDecision", dec)
+                            if t == ("param", "for_result"):
+                                return fr
+                            if t == attr(OUT, "stop_reason"):
+                                return osr
+                            if t == attr(ST, "last_stop_reason"):
+                                return ssr
+                            if t[0] in ("param", "attr", "enum"):
+                                return t
+                            raise CannotEval(show(t))
+
+                        try:
+                            if not all(truth(a, leaf) == pol for a, pol, _ in p.conds):
+                                continue  # this combination does not take this path
+                            got = {k: evaluate(v, leaf) for k, v in d.items()}
+                        except CannotEval as exc:
+                            problems.append(f"cannot evaluate {exc}")
+                            break
+                        if dec in ("RETRY", "ABORTED"):
+                            problems.append(f"[decision={dec}] a terminal action is built although the attempt outcome says {dec}")
+                            break
+                        if dec == "RAISE" and not fr:
+                            continue  # an exception-caused raise re-raises the exception itself: no action is built (R4.1)
+                        combos += 1
+                        want = {
+                            "stop_reason": osr or ssr or ("enum", "StopReason", "SCHEDULED" if dec == "SCHEDULED" else "MAX_ATTEMPTS_GLOBAL"),
+                            "attempts": ("param", "attempt"),
+                            "last_class": attr(ST, "last_class"),
+                            "last_exception": None if fr else attr(ST, "last_exc"),
+                            "last_result": attr(ST, "last_result") if fr else None,
+                            "next_sleep_s": attr(OUT, "sleep_s") if dec == "SCHEDULED" else None,
+                        }
+                        for k, w in want.items():
+                            if only is not None and k not in only:
+                                continue
+                            if got.get(k) != w:
+                                problems.append(f"[decision={dec}, for_result={fr}, outcome.stop_reason={'set' if osr else 'None'}, state.last_stop_reason={'set' if ssr else 'None'}] {k}={show(got.get(k)) if isinstance(got.get(k), tuple) else got.get(k)}; expected {show(w) if isinstance(w, tuple) else w}")
+        scheduled = any(a == ("cmp", "is", DEC, SCHED) and pol for a, pol, _ in p.conds)
+        rep.instance(rid, f"ScheduledAction|{'|'.join(p.describe()[-3:])[:120]}")
+        # (a construction that no combination of decision and flag reaches - the default row of a dispatch table whose
+        # rows cover every decision - is dead code, not a violation)
+        if problems:
+            rep.fail(rid, f"ScheduledAction|scheduled={scheduled}|{problems[0][:40]}", f"determine_action_from_outcome: ScheduledAction built with {problems[:3]}", where=da.where(), function=da.qual, path=p.describe())
+        else:
+            rep.ok(rid)
+    if n_sched < 2:
+        raise AnalysisError("determine_action_from_outcome: ScheduledAction sites not found")
 
 
 def final_failure_state(rep: Report, rid: str, prog: Program) -> None:
